@@ -1,4 +1,4 @@
-"""C02 -- occurrence finding is exact (structural clauses R02.1-R02.3)."""
+"""C02 -- occurrence finding is exact (structural clauses R02.1-R02.18)."""
 from __future__ import annotations
 
 import ast
@@ -33,6 +33,7 @@ EXPLANATION = (
     "the right binding is otherwise not decided."
     ' R02.15 (=R01.11): `__init__` is the call target only of a class.'
 )
+EXPLANATION += ' R02.18: a `col_offset`/`end_col_offset` of an AST node (UTF-8 bytes) reaches a character offset only through codeanalyze.column_to_offset; it is otherwise only compared, or is the start column of a node tested to be a statement.'
 ASSUMPTIONS = ["re alternation is ordered (leftmost position, first alternative wins)",
                "the name searched for is a plain identifier (symbolic NAME in the folded pattern)"]
 
@@ -104,6 +105,13 @@ def check(ctx, res) -> None:
     from .c15 import region_interval_rule
 
     region_interval_rule(ctx, res, "R02.12")
+    from .c15 import sibling_search_rule
+
+    sibling_search_rule(ctx, res, "R02.17")
+    from .common import byte_column_rule, column_to_offset_anchor
+
+    column_to_offset_anchor(ctx, res, "R02.18")
+    byte_column_rule(ctx, res, "R02.18", ("rope.refactor.occurrences",))
 
 
 def _first_verdict_helper(h) -> bool:
